@@ -12,7 +12,7 @@ func init() {
 	register("C08", propMeta{
 		Explanation: "Decides the release discipline and the rebuild-on-open obligations: (R1) every database-bound handle (iterators, WAL iterators, backup info, readers) created in production code is released on every path from its creation, or escapes to an owner; (R2) the owners' Close releases every releasable field, column-family handles before the database; " +
 			"(R3) RaftNode.Close releases raft, transport, log store, balloon and database on every non-error path (or the field is nil), the database last; Balloon.Close closes both trees; (R4) no explicit abort (panic, Fatal, os.Exit, unchecked assertion) is reachable from the shutdown entry points; (R5) constructors rebuild version counter and hyper cache from the store, the rebuild consumes exactly what was read; (R6) caches are read-through and wired to the table their tree writes.",
-		Added:       "Also (R7) one recovery level for writers and rebuild, tiles persisted whenever cached, the persisted FSM state is the applied one, every production Close of the node waits for raft's shutdown. Third round: (R5) one ordering convention, readers hand out fresh pairs and report errors only with an empty chunk; (R7) loadState installs what it decodes, a node joins at start-up only when it has no state.",
+		Added:       "Also (R7) one recovery level for writers and rebuild, tiles persisted whenever cached, the persisted FSM state is the applied one, every production Close of the node waits for raft's shutdown. Third round: (R5) one ordering convention, readers hand out fresh pairs and report errors only with an empty chunk; (R7) loadState installs what it decodes, a node joins at start-up only when it has no state. Fifth round: Close returns early only with the error of a release step; a restarted node accepts its own snapshot (order model over state/snapshot versions).",
 		Assumptions: []string{"the rocksdb wrapper's release methods free the native object"},
 		Declined:    "identity of snapshots/proofs after reopen at every prefix (values); RocksDB's own reference counting.",
 	}, runC08)
